@@ -64,12 +64,13 @@ type gdSolver struct {
 	facts     []gdLin // each: lin <= 0
 	neqs      []gdLin // each: lin != 0
 	notes     []string
-	ctxs      map[*ssa.Call]*gdCallCtx
+	ctxs      map[gdCtxKey]*gdCallCtx
+	frames    map[gdCtxKey]*gdCallCtx
 	goalAtoms map[int]bool
 }
 
 func newGdSolver(eq *gdEq) *gdSolver {
-	return &gdSolver{eq: eq, index: map[gdAtom]int{}, ctxs: map[*ssa.Call]*gdCallCtx{}}
+	return &gdSolver{eq: eq, index: map[gdAtom]int{}, ctxs: map[gdCtxKey]*gdCallCtx{}}
 }
 
 func (s *gdSolver) atom(a gdAtom) gdLin {
@@ -94,27 +95,85 @@ func gdConstInt(v ssa.Value) (int64, bool) {
 	return n, exact
 }
 
-// ctxFor returns the (interned) callee frame of a call to a pure function of
-// the module, or nil.
-func (s *gdSolver) ctxFor(call *ssa.Call) *gdCallCtx {
-	if c, ok := s.ctxs[call]; ok {
+type gdCtxKey struct {
+	call  *ssa.Call
+	outer *gdCallCtx
+}
+
+// ctxFor returns the (interned) callee frame of a call, made in the analysed
+// function, to a pure function of the module, or nil.
+func (s *gdSolver) ctxFor(call *ssa.Call) *gdCallCtx { return s.ctxForIn(call, nil) }
+
+// ctxForIn: the same for a call made in frame outer (a helper calling a helper).
+func (s *gdSolver) ctxForIn(call *ssa.Call, outer *gdCallCtx) *gdCallCtx {
+	k := gdCtxKey{call, outer}
+	if c, ok := s.ctxs[k]; ok {
 		return c
 	}
 	var c *gdCallCtx
-	if cal := call.Call.StaticCallee(); cal != nil && gdPureFunc(cal) {
+	depth := 0
+	for o := outer; o != nil; o = o.outer {
+		depth++
+	}
+	if cal := call.Call.StaticCallee(); cal != nil && depth < 3 && gdPureFunc(cal) {
+		c = &gdCallCtx{call: call, callee: cal, outer: outer}
+	}
+	s.ctxs[k] = c
+	return c
+}
+
+// frameFor returns the (interned) callee frame of a static call of any module
+// function with a body: the frame of ctxFor when the callee is pure; otherwise
+// a frame in which only expressions over the parameters may be evaluated
+// (gdFrameStable) — the callee may write memory and call other functions.
+func (s *gdSolver) frameFor(call *ssa.Call) *gdCallCtx { return s.frameForIn(call, nil) }
+
+func (s *gdSolver) frameForIn(call *ssa.Call, outer *gdCallCtx) *gdCallCtx {
+	if c := s.ctxForIn(call, outer); c != nil {
+		return c
+	}
+	k := gdCtxKey{call, outer}
+	if c, ok := s.frames[k]; ok {
+		return c
+	}
+	var c *gdCallCtx
+	if cal := call.Call.StaticCallee(); cal != nil && outer == nil && cal.Blocks != nil && cal.Pkg != nil && strings.HasPrefix(cal.Pkg.Pkg.Path(), ModPath) {
 		c = &gdCallCtx{call: call, callee: cal}
 	}
-	s.ctxs[call] = c
+	if s.frames == nil {
+		s.frames = map[gdCtxKey]*gdCallCtx{}
+	}
+	s.frames[k] = c
 	return c
 }
 
 // gdPureFunc: a module function without stores, map updates, sends, defers or
-// calls other than len/cap — its results are expressions over its parameters
-// and the memory state at the call.
+// calls other than len/cap and static calls of functions that are themselves
+// pure — its results are expressions over its parameters and the memory state
+// at the call.
+var gdPureMemo = map[*ssa.Function]int{} // 1 pure, 2 not pure, 3 in progress
+
 func gdPureFunc(fn *ssa.Function) bool {
 	if fn == nil || fn.Blocks == nil || fn.Pkg == nil || !strings.HasPrefix(fn.Pkg.Pkg.Path(), ModPath) {
 		return false
 	}
+	switch gdPureMemo[fn] {
+	case 1:
+		return true
+	case 2, 3: // 3: recursion — not looked through
+		return false
+	}
+	gdPureMemo[fn] = 3
+	pure := gdPureBody(fn)
+	if pure {
+		gdPureMemo[fn] = 1
+	} else {
+		gdPureMemo[fn] = 2
+	}
+	return pure
+}
+
+func gdPureBody(fn *ssa.Function) bool {
 	for _, b := range fn.Blocks {
 		for _, in := range b.Instrs {
 			switch x := in.(type) {
@@ -125,7 +184,13 @@ func gdPureFunc(fn *ssa.Function) bool {
 			case *ssa.MapUpdate, *ssa.Send, *ssa.Defer, *ssa.Go, *ssa.Panic, *ssa.RunDefers, *ssa.Select:
 				return false
 			case *ssa.Call:
-				if b, ok := x.Call.Value.(*ssa.Builtin); !ok || (b.Name() != "len" && b.Name() != "cap") {
+				if b, ok := x.Call.Value.(*ssa.Builtin); ok {
+					if b.Name() != "len" && b.Name() != "cap" {
+						return false
+					}
+					continue
+				}
+				if cal := x.Call.StaticCallee(); cal == nil || !gdPureFunc(cal) {
 					return false
 				}
 			}
@@ -167,7 +232,7 @@ func (s *gdSolver) linIn(v ssa.Value, ctx *gdCallCtx, depth int) gdLin {
 		if ctx != nil && x.Parent() == ctx.callee {
 			for i, q := range ctx.callee.Params {
 				if q == x && i < len(ctx.call.Call.Args) {
-					return s.linIn(ctx.call.Call.Args[i], nil, depth+1)
+					return s.linIn(ctx.call.Call.Args[i], ctx.outer, depth+1)
 				}
 			}
 		}
@@ -197,8 +262,8 @@ func (s *gdSolver) linIn(v ssa.Value, ctx *gdCallCtx, depth int) gdLin {
 			return s.lenOf(x.Call.Args[0], ctx, depth+1)
 		}
 		// a call of a pure single-result module function: its returned expression
-		if ctx == nil && gdIsInteger(x.Type()) {
-			if cc := s.ctxFor(x); cc != nil {
+		if gdIsInteger(x.Type()) {
+			if cc := s.ctxForIn(x, ctx); cc != nil {
 				if r := gdSingleReturn(cc.callee); r != nil && len(r.Results) == 1 {
 					return s.linIn(r.Results[0], cc, depth+1)
 				}
@@ -206,8 +271,8 @@ func (s *gdSolver) linIn(v ssa.Value, ctx *gdCallCtx, depth int) gdLin {
 		}
 	case *ssa.Extract:
 		// result k of a pure multi-result module function with one return
-		if call, ok := x.Tuple.(*ssa.Call); ok && ctx == nil && gdIsInteger(x.Type()) {
-			if cc := s.ctxFor(call); cc != nil {
+		if call, ok := x.Tuple.(*ssa.Call); ok && gdIsInteger(x.Type()) {
+			if cc := s.ctxForIn(call, ctx); cc != nil {
 				if r := gdSingleReturn(cc.callee); r != nil && x.Index < len(r.Results) {
 					return s.linIn(r.Results[x.Index], cc, depth+1)
 				}
@@ -242,7 +307,7 @@ func (s *gdSolver) lenOf(x ssa.Value, ctx *gdCallCtx, depth int) gdLin {
 		if ctx != nil && y.Parent() == ctx.callee {
 			for i, q := range ctx.callee.Params {
 				if q == y && i < len(ctx.call.Call.Args) {
-					return s.lenOf(ctx.call.Call.Args[i], nil, depth+1)
+					return s.lenOf(ctx.call.Call.Args[i], ctx.outer, depth+1)
 				}
 			}
 		}
@@ -325,12 +390,47 @@ func (s *gdSolver) note(f string, a ...any) { s.notes = append(s.notes, fmt.Spri
 func (s *gdSolver) addCond(cond ssa.Value, truth bool) bool { return s.addCondIn(cond, truth, nil) }
 
 func (s *gdSolver) addCondIn(cond ssa.Value, truth bool, ctx *gdCallCtx) bool {
+	return s.addCondDepth(cond, truth, ctx, 0)
+}
+
+func (s *gdSolver) addCondDepth(cond ssa.Value, truth bool, ctx *gdCallCtx, depth int) bool {
 	for {
 		if u, ok := cond.(*ssa.UnOp); ok && u.Op == token.NOT {
 			cond, truth = u.X, !truth
 			continue
 		}
 		break
+	}
+	// a boolean computed with && / || and kept in a variable (`ok := a && b`) or
+	// returned negated (`return !(a || b)`): a phi of constants and conditions.
+	// When only one edge can have produced the known value, the decisions of that
+	// edge hold and so does its condition. (Not for a loop-header phi: its
+	// back-edge value belongs to the previous iteration.)
+	if phi, ok := cond.(*ssa.Phi); ok && depth < 4 {
+		blk := phi.Block()
+		edge := -1
+		for i, e := range phi.Edges {
+			if i >= len(blk.Preds) || blk.Dominates(blk.Preds[i]) {
+				return false
+			}
+			if cv, isConst := gdBoolConst(e); isConst && cv != truth {
+				continue
+			}
+			if edge >= 0 {
+				return false
+			}
+			edge = i
+		}
+		if edge < 0 {
+			return false
+		}
+		for _, f := range gdEdgeFacts(blk.Preds[edge], blk) {
+			s.addCondDepth(f.cond, f.truth, ctx, depth+1)
+		}
+		if _, isConst := gdBoolConst(phi.Edges[edge]); !isConst {
+			s.addCondDepth(phi.Edges[edge], truth, ctx, depth+1)
+		}
+		return true
 	}
 	b, ok := cond.(*ssa.BinOp)
 	if !ok {
